@@ -298,7 +298,7 @@ class FakeSession:
     def __init__(self):
         self.requests = []
 
-    def post(self, path, data=None, headers=None):
+    def post(self, path, data=None, headers=None, **_kw):
         # what aiohttp puts on the wire (documented behaviour): bytes are sent as one block with a Content-Length header that
         # aiohttp ADDS when the caller gave none; an async iterable is sent with chunked transfer encoding, one chunk per piece
         headers = dict(headers or {})
